@@ -198,6 +198,66 @@ func runC18Recorder(c *Ctx) {
 				}
 			}
 			c.Tag("recorder.phase")
+			if ph == phases-1 {
+				// recording that overlaps a Reset: afterwards (no further reset) every series must again count exactly
+				stop := make(chan struct{})
+				var wg2 sync.WaitGroup
+				for g := 0; g < 8; g++ {
+					wg2.Add(1)
+					go func(g int) {
+						defer wg2.Done()
+						for i := 0; ; i++ {
+							select {
+							case <-stop:
+								return
+							default:
+							}
+							e := evs[(g*131+i)%len(evs)]
+							switch e.kind {
+							case "exempt":
+								rec.RecordExemption(e.attrs())
+							case "error":
+								rec.RecordError(e.fatal, e.attrs())
+							default:
+								rec.RecordEvaluation(metrics.Decision(e.decision), mkLV(e.level, e.minor), metrics.Mode(e.mode), e.attrs())
+							}
+						}
+					}(g)
+				}
+				for k := 0; k < 200; k++ {
+					rec.Reset()
+				}
+				close(stop)
+				wg2.Wait()
+				before, _ := gather(reg)
+				var tail []J
+				for i := 0; i < 400 && i < len(evs); i++ {
+					e := evs[i]
+					switch e.kind {
+					case "exempt":
+						rec.RecordExemption(e.attrs())
+					case "error":
+						rec.RecordError(e.fatal, e.attrs())
+					default:
+						rec.RecordEvaluation(metrics.Decision(e.decision), mkLV(e.level, e.minor), metrics.Mode(e.mode), e.attrs())
+					}
+					tail = append(tail, e.json())
+				}
+				c.Eval(len(tail))
+				after, _ := gather(reg)
+				out := c.Lean([]J{{"op": "metricCounts", "server": []int{1, serverMinor}, "events": tail}})[0]
+				wantTail := map[string]map[string]int{"pod_security_evaluations_total": leanCounts(out["evaluations"]), "pod_security_exemptions_total": leanCounts(out["exemptions"]), "pod_security_errors_total": leanCounts(out["errors"])}
+				for name, w := range wantTail {
+					for k, v := range w {
+						if d := after[name][k] - before[name][k]; d != v {
+							c.Violate(Finding{Desc: fmt.Sprintf("%s %s: %d recordings after resets that overlapped recording, but the exposed series grew by %d", name, k, v, d), Key: "metric-lost-after-reset",
+								Input: J{"server": serverMinor, "series": k}})
+							break
+						}
+					}
+				}
+				c.Tag("recorder.resetOverlap")
+			}
 			if ph < phases-1 {
 				rec.Reset()
 				all = append(all, J{"kind": "reset"})
